@@ -358,22 +358,21 @@ class RealEncoder(AbstractItemEncoder):
 
     @staticmethod
     def _dropFloatingPoint(m, encbase, e):
-        ms, es = 1, 1
+        ms = 1
         if m < 0:
             ms = -1  # mantissa sign
 
-        if e < 0:
-            es = -1  # exponent sign
-
         m *= ms
 
+        # stay in integers: a negative power of two would turn the
+        # mantissa into a float and round it beyond 53 bits
         if encbase == 8:
-            m *= 2 ** (abs(e) % 3 * es)
-            e = abs(e) // 3 * es
+            m *= 2 ** (e % 3)
+            e //= 3
 
         elif encbase == 16:
-            m *= 2 ** (abs(e) % 4 * es)
-            e = abs(e) // 4 * es
+            m *= 2 ** (e % 4)
+            e //= 4
 
         while True:
             if int(m) != m:
